@@ -43,11 +43,13 @@ pub fn step_main(args: &[String]) -> ! {
         }
         println!("boom {}", uid);
         log("fail");
-        if scribble && uid % 2 == 0 {
-            // die from a signal instead of exiting non-zero (a crashing tool): a failure all the same
+        if let Ok(sig) = std::fs::read_to_string(format!("{}/signal.{}", ctl, uid)) {
+            // die from a signal instead of exiting non-zero (a crashing or killed tool): a failure all the same
+            let sig: i32 = sig.trim().parse().unwrap_or(libc::SIGSEGV);
+            let _ = std::io::stdout().flush();
             unsafe {
-                libc::signal(libc::SIGSEGV, libc::SIG_DFL);
-                libc::kill(libc::getpid(), libc::SIGSEGV);
+                libc::signal(sig, libc::SIG_DFL);
+                libc::kill(libc::getpid(), sig);
             }
         }
         std::process::exit(1);
@@ -130,7 +132,9 @@ fn render_real(proj: &Proj, ctl: &str) -> String {
             let implicit_outs = s.outs[s.nexp..].join(" ");
             let rsp = if s.rsp.is_some() { format!("{}.rsp", s.outs[0]) } else { "-".to_string() };
             out.push_str(&format!(
-                "  command = '{}' step '{}' {} {} {} {} '{}' {} $out {} $in {}\n",
+                "  command = {}'{}' step '{}' {} {} {} {} '{}' {} $out {} $in {}\n",
+                // every other command replaces its shell (as wrapper scripts do), so that n2 itself sees how it died
+                if uid % 2 == 0 { "exec " } else { "" },
                 exe,
                 ctl,
                 uid,
@@ -198,6 +202,8 @@ pub fn run_incr_case(case: &Case, env: &Env, focus: &str) -> CaseOut {
     let mut trace = vec![];
     let mut prev_clean: Option<BTreeSet<usize>> = None;
     let mut validated = 0u64;
+    let mut any_failed = false;
+    let mut signal_deaths_planned = 0usize;
     let empty: Vec<u16> = vec![];
     let nrounds = case.ops.len().max(2).min(5);
     let mut prev_spec: Option<InvSpec> = None;
@@ -245,6 +251,16 @@ pub fn run_incr_case(case: &Case, env: &Env, focus: &str) -> CaseOut {
                 std::fs::write(ctl.join(format!("fail.{}", s.uid)), "").unwrap();
                 if *f == crate::sim::exec::Fault::FailScribble {
                     std::fs::write(ctl.join(format!("scribble.{}", s.uid)), "").unwrap();
+                }
+                // two failures in five are deaths from a signal (never SIGINT: that is an interruption, C16's subject)
+                let sig = match (s.uid * 7 + round) % 5 {
+                    0 => Some(libc::SIGSEGV),
+                    1 => Some(if s.uid % 2 == 0 { libc::SIGKILL } else { libc::SIGTERM }),
+                    _ => None,
+                };
+                if let Some(sig) = sig {
+                    std::fs::write(ctl.join(format!("signal.{}", s.uid)), sig.to_string()).unwrap();
+                    signal_deaths_planned += 1;
                 }
             }
         }
@@ -326,6 +342,7 @@ pub fn run_incr_case(case: &Case, env: &Env, focus: &str) -> CaseOut {
             }
         }
         let expect_fail = !failed.is_empty();
+        any_failed |= expect_fail;
         let missing_src = wanted.iter().any(|u| proj.step(*u).map(|s| !s.phony && !world.missing_sources(&proj, s).is_empty()).unwrap_or(false));
         let unknown_target = spec.targets.iter().any(|t| !proj.mentioned().contains(t));
         if code == Some(0) {
@@ -382,6 +399,12 @@ pub fn run_incr_case(case: &Case, env: &Env, focus: &str) -> CaseOut {
     }
     out.viols.sort_by_key(|x| x.prop != focus);
     out.classes = vec!["bb-incr".into()];
+    if any_failed {
+        out.classes.push("bb-incr:command-failed".into());
+    }
+    if signal_deaths_planned > 0 {
+        out.classes.push("bb-incr:signal-death-planned".into());
+    }
     out.fp = fnv_str(&format!("{:?}", trace));
     out.desc = json!({"manifest": render_real(&world.disk, "<ctl>").replace(&self_exe(), "n2check"), "history": trace, "invocations_agreeing_with_the_model": validated});
     out.validated = validated;
